@@ -822,8 +822,16 @@ func cmdDrive(args []string) {
 			fmt.Printf("VIOLATION property=%s replay=%s\n", p.ID(), replayPath)
 			os.Exit(1)
 		}
+		unshrunk := *rp
 		rp = shrink(p, rp, *scratch, cfg.ShrinkS)
 		v, fp, _ := replayInChild(*scratch, rp, "final", p.Race())
+		if !sameViolation(v, rp.Expect) {
+			// the minimised scenario fails differently (or not at all) in a fresh process: report the scenario as it
+			// was found and confirmed, unminimised, rather than nothing
+			fmt.Fprintln(os.Stderr, "minimised scenario does not replay; reporting the confirmed scenario unminimised")
+			rp = &unshrunk
+			v, fp, _ = replayInChild(*scratch, rp, "final-unshrunk", p.Race())
+		}
 		if !sameViolation(v, rp.Expect) {
 			fmt.Fprintln(os.Stderr, "minimised scenario does not replay")
 			os.Exit(2)
